@@ -1,3 +1,134 @@
 package main
 
-func runSelftest() int { return 0 }
+// Differential self-test of the regexp port against the real package, on the
+// patterns servitor uses and random subjects over a hostile alphabet.
+
+import (
+	"fmt"
+	"math/rand"
+	"os"
+	"os/exec"
+	"regexp"
+	"strings"
+	"time"
+	"unicode"
+)
+
+func servitorPatterns() []string {
+	out, err := exec.Command("grep", "-rhoE", "--include=*.go", "--exclude=*_test.go", "MustCompile\\(`[^`]*`\\)", repoDir).Output()
+	if err != nil {
+		return nil
+	}
+	seen := map[string]bool{}
+	var pats []string
+	for _, l := range strings.Split(string(out), "\n") {
+		if i := strings.Index(l, "`"); i >= 0 {
+			p := l[i+1 : strings.LastIndex(l, "`")]
+			if !seen[p] {
+				seen[p] = true
+				pats = append(pats, p)
+			}
+		}
+	}
+	return pats
+}
+
+func runSelftest() int {
+	pats := servitorPatterns()
+	if len(pats) == 0 {
+		fmt.Println("selftest: no patterns found")
+		return 2
+	}
+	alphabet := []string{"\x1b", "[", "m", "0", ";", "1", "a", "Z", " ", "\n", "\t", "\r", "é", "世", "/", ":", ".", "=", ">", "#", "*", "`", "%", "-", "+", "\x80", "\xff", "h", "t", "p", "s", "⎯"}
+	rng := rand.New(rand.NewSource(1))
+	tb := NewTermBank()
+	in := &Interp{tb: tb, budget: 1 << 60, ex: &PathCtx{tb: tb, decided: map[*Term]bool{}}}
+	in.cur = &thread{}
+	cases, bad := 0, 0
+	t0 := time.Now()
+	for _, p := range pats {
+		r, err := compileRe(p)
+		if err != nil {
+			fmt.Println("selftest: cannot compile", p)
+			return 2
+		}
+		native := regexp.MustCompile(p)
+		for k := 0; k < 4000; k++ {
+			n := rng.Intn(9)
+			var sb strings.Builder
+			for i := 0; i < n; i++ {
+				sb.WriteString(alphabet[rng.Intn(len(alphabet))])
+			}
+			subj := sb.String()
+			cases++
+			// FindAllStringSubmatch
+			want := native.FindAllStringSubmatch(subj, -1)
+			got := in.portFindAll(nil, r, Str{S: subj}, -1)
+			ok := len(want) == len(got)
+			for i := 0; ok && i < len(want); i++ {
+				ok = len(want[i]) == len(got[i])
+				for j := 0; ok && j < len(want[i]); j++ {
+					ok = want[i][j] == got[i][j].S
+				}
+			}
+			// FindStringSubmatch
+			w1 := native.FindStringSubmatch(subj)
+			m := in.reExec(nil, r, Str{S: subj}, 0, r.numCap)
+			if (w1 == nil) != (m == nil) {
+				ok = false
+			} else if m != nil {
+				g1 := in.submatchStrings(Str{S: subj}, m)
+				for j := range w1 {
+					ok = ok && w1[j] == g1[j].S
+				}
+			}
+			// ReplaceAllString with a literal
+			w2 := native.ReplaceAllString(subj, "_")
+			g2 := in.reReplaceAll(nil, r, Str{S: subj}, func(Str) Str { return Str{S: "_"} })
+			ok = ok && w2 == g2.S
+			if !ok {
+				bad++
+				if bad <= 5 {
+					fmt.Printf("selftest: MISMATCH pattern %q subject %q\n", p, subj)
+				}
+			}
+		}
+	}
+	fmt.Printf("selftest: regexp port vs real regexp: %d patterns, %d cases, %d mismatches, %.1fs\n", len(pats), cases, bad, time.Since(t0).Seconds())
+	if bad > 0 {
+		return 1
+	}
+	// the unicode predicates as terms vs the real functions, for every code point
+	type pred struct {
+		name string
+		f    func(rune) bool
+		tab  *unicode.RangeTable
+	}
+	ubad := 0
+	for _, pr := range []pred{{"IsSpace", unicode.IsSpace, unicode.White_Space}, {"IsControl", unicode.IsControl, unicode.Cc},
+		{"IsLetter", unicode.IsLetter, unicode.L}, {"IsDigit", unicode.IsDigit, unicode.Nd}, {"IsUpper", unicode.IsUpper, unicode.Upper}, {"IsLower", unicode.IsLower, unicode.Lower}} {
+		v := tb.Var(SoBV32, "r_"+pr.name)
+		t := in.rangeTableTerm(v, pr.tab)
+		for r := rune(0); r <= 0x10FFFF; r++ {
+			// every code point up to U+3100 (all spaces and controls live there), a sample beyond
+			if r > 0x3100 {
+				r += 996
+			}
+			if pr.name != "IsSpace" && pr.name != "IsControl" && r > 0x800 {
+				r += 40
+			}
+			if (Model{v.name: uint64(r)}.Eval(t) != 0) != pr.f(r) {
+				ubad++
+				if ubad <= 5 {
+					fmt.Printf("selftest: MISMATCH unicode.%s(%U)\n", pr.name, r)
+				}
+			}
+		}
+	}
+	fmt.Printf("selftest: unicode predicate terms vs real functions: %d mismatches, %.1fs\n", ubad, time.Since(t0).Seconds())
+	if ubad > 0 {
+		return 1
+	}
+	_ = os.Stdout
+	return 0
+}
